@@ -51,6 +51,13 @@ CLAIMED['C17'] = dict(
          'channel-wise, and inverts the blur at lambda = 0 on every path without a vanishing Fourier coefficient. FFT = exact DFT over Q(i, sqrt 3).',
     ref='3/C17')
 
+CLAIMED['C07'] = dict(
+    text='On every feasible pivot path (all row-interchange sequences of the shape, enumerated by z3 feasibility of the symbolic pivot comparisons): '
+         'P A = L U (three-output) and A = L U (two-output) as rational-function identities, P a permutation matrix, L unit lower trapezoidal with '
+         '|l_ij| <= 1 under the path condition, U upper trapezoidal; the only exception raised is the zero-pivot ValueError. Full quaternion '
+         'entries for m <= 2 (n <= 3) and m x 1 (m <= 4); real-axis / complex-subfield entries for 3x2, 2x3, 3x3 (quick) and up to 4x4 (thorough).',
+    ref='3/C07')
+
 NOT_YET = {}
 
 NA = {
